@@ -200,12 +200,13 @@ def config_histories(quick: bool) -> List[Tuple[str, List[Dict[str, Any]]]]:
     """(label, prehistory): one table property set to a small bound b, then a history of appends whose length relative to b is
     below / at / above it (never fewer than three snapshots, which the operation mixes need)."""
     out: List[Tuple[str, List[Dict[str, Any]]]] = []
-    for prop, tag, bounds in ((CAP_PROP, "logcap", (1, 2, 4) if quick else (1, 2, 3, 4)),
-                              (RETENTION_PROP, "retain", (4,) if quick else (3, 4, 6))):
+    for prop, tag, bounds in ((CAP_PROP, "logcap", (1, 2, 5) if quick else (1, 2, 3, 5)),
+                              (RETENTION_PROP, "retain", (5,) if quick else (3, 4, 5))):
         for b in bounds:
-            for rel in ((-1, 2) if quick else (-1, 0, 2)):
+            # versions committed after create = the property commit + the appends = b + rel + 1: below / at / above the bound
+            for rel in ((-2, 1) if quick else (-2, -1, 1)):
                 nap = max(3, b + rel)
-                label = f"{tag}{b}-hist{nap + 1}"          # versions committed after create: the property commit + the appends
+                label = f"{tag}{b}-hist{nap + 1}"
                 pre = [{"do": "set_property", "key": prop, "value": str(b)}] + [{"do": "append"}] * nap
                 if all(label != l for l, _p in out):
                     out.append((label, pre))
@@ -1054,7 +1055,7 @@ def run(ctx) -> None:
     #     tables whose bounded structures (metadata log, retained snapshots) are below / at / beyond their configured bound
     for label, pre in config_histories(quick):
         for oi, ops in enumerate(OPSETS_CFG):
-            if quick and oi >= 2 and not label.endswith(("hist4", "hist7")):
+            if quick and oi >= 2 and not label.startswith(("logcap2", "retain")):
                 continue
             case = {"ops": ops, "clock": "tick" if oi % 2 == 0 else "frozen", "topology": "separate", "prehistory": pre, "config": label}
             for dev, res in explore(ctx, case, 1 if quick else 2, 6 if quick else 60):
